@@ -157,6 +157,20 @@ func ruleIdentityComparisons(w *World, r *Report, rule string) {
 // and to the build-time validations.
 func ruleDependenciesUnfiltered(w *World, r *Report, rule string) {
 	n := 0
+	var reach map[*FuncInfo]bool
+	regReach := func() map[*FuncInfo]bool {
+		if reach == nil {
+			reach = map[*FuncInfo]bool{}
+			if add := w.Fn(w.Godi, "(*collection).addService"); add != nil {
+				reach = reachableFrom(w, []*FuncInfo{add})
+			} else {
+				for _, f := range w.FuncsOf(w.Godi) {
+					reach[f] = true
+				}
+			}
+		}
+		return reach
+	}
 	for _, fi := range w.FuncsOf(w.Godi) {
 		info := fi.Pkg.TypesInfo
 		check := func(val ast.Expr, pos token.Pos) {
@@ -213,6 +227,11 @@ func ruleDependenciesUnfiltered(w *World, r *Report, rule string) {
 			case *ast.AssignStmt:
 				for i, l := range s.Lhs {
 					if fv := fieldOf(info, l); fv != nil && fv.Name() == "Dependencies" && ownerOfFieldRaw(w, fv) == "Descriptor" && i < len(s.Rhs) {
+						// a value copy (`clone := *d`) filled outside the registration chain: the copy is
+						// handed to the caller, no registry view can come to hold it
+						if !regReach()[fi] && localStructCopy(info, fi, l) {
+							continue
+						}
 						check(s.Rhs[i], s.Pos())
 					}
 				}
